@@ -68,7 +68,7 @@ RULE = ("random values over ASCII word/separator/quote characters, letters and n
 
 
 def harness_args(tier, seed, outdir):
-    return ["-seed", str(seed), "-tier", tier, "-out", outdir]
+    return ["-seed", str(seed), "-tier", tier, "-out", outdir, "-repo", vcheck.REPO]
 
 
 def main(argv):
